@@ -13,11 +13,14 @@ META = {
     'explanation': 'E-PATH over one iteration of every filter loop of tzdb.transformer.Transformer (state: valid flag, reason recorded, '
                    'entry emitted), kind inference for the local reason collections, name/role-preserving data flow from '
                    'Transformer.get_data() through tzcompiler.main, TzDbCollector and the generator constructors to the template '
-                   'placeholders, call/assignment chain of transform(), and ast lints (identical operands, % formatting arity).',
+                   'placeholders, call/assignment chain of transform(), ast lints (identical operands, % formatting arity), and the '
+                   'interval rules of the silent "unused rule" removal: linear forms of the bounds passed to find_matching_rules against '
+                   'the comparator it applies, and the strict "TO year < year" / "latest date" selection of find_latest_prior_rules.',
     'decided': 'every zone/policy/link a Transformer filter does not pass on is recorded with a reason in a collection of its own '
                'kind that is merged into the matching all_removed_* / all_notable_* attribute; those attributes reach the '
                'generated headers under the matching role; every filter is called and its result is what transform() stores; '
-               'no comparison has two identical operands; % formatting operand counts match; the extractor records what it skips',
+               'no comparison has two identical operands; % formatting operand counts match; the extractor records what it skips; '
+               'no rule an era can select (closed year interval of the era, and the latest rule before it) is removed as unused',
     'not_decided': 'that what is emitted has zic\'s semantics at every instant (end-to-end semantic preservation)',
     'assumptions': ['CPython ast', '_add_reason / _merge_reasons are the only writers of the reason collections'],
 }
